@@ -149,6 +149,12 @@ func checkC15(sc *Scenario, st *Stats) *Violation {
 				if e.Err == "out of gas" && e.Gas >= 100 {
 					return violf("1153/fee", "inv %d pc %d: %s ran out of gas with %d gas left (fee is 100)", inv, e.PC, opName(e.Op), e.Gas)
 				}
+				// a stack error is legitimate only for too few operands: TLOAD replaces its
+				// operand and TSTORE consumes two, so neither can exceed the stack limit
+				pops := map[byte]int{TLOAD: 1, TSTORE: 2}[e.Op]
+				if e.Err != "out of gas" && len(e.Stack) >= pops {
+					return violf("1153/stack", "inv %d pc %d: %s refused with %q although %d operands were on the stack (%d items)", inv, e.PC, opName(e.Op), e.Err, pops, len(e.Stack))
+				}
 				continue
 			}
 			if e.Cost != 100 {
@@ -348,6 +354,28 @@ func genTsScenario(t *rapid.T) *Scenario {
 	for ci := 0; ci < n; ci++ {
 		a := NewAsm()
 		steps := rapid.IntRange(2, 9).Draw(t, "tssteps")
+		if chance(t, 10, "tsfull") {
+			// stack-limit boundary: the three instructions executed with exactly 1024 (or
+			// 1023) items on the stack - each pops at least as many as it pushes, so the
+			// limit cannot be what stops them
+			a.Push(uint64(rapid.IntRange(1, 3).Draw(t, "tsfv"))).Push(1).Op(TSTORE)
+			op := []byte{TLOAD, TSTORE, MCOPY}[uniform(t, 0, 2, "tsfop")]
+			operands := map[byte]int{TLOAD: 1, TSTORE: 2, MCOPY: 3}[op]
+			fill := 1024 - operands - uniform(t, 0, 1, "tsfslack")
+			for i := 0; i < fill; i++ {
+				a.Push(0x99)
+			}
+			switch op {
+			case TLOAD:
+				a.Push(1).Op(TLOAD)
+			case TSTORE:
+				a.Push(7).Push(2).Op(TSTORE)
+			default:
+				a.Push(32).Push(0).Push(32).Op(MCOPY)
+			}
+			a.Op(POP)
+			steps = 0
+		}
 		for i := 0; i < steps; i++ {
 			k := uint64(uniform(t, 0, 2, "tsk"))
 			switch uniform(t, 0, 9, "tsact") {
